@@ -37,16 +37,16 @@ def shards(tier, seed):
     big = tier == "thorough"
     out = []
     nshard = 4
-    per = 5000 if big else 250
+    per = 50000 if big else 250
     for i in range(nshard):
         out.append((f"naturals{i}", "shard_naturals", {"max_examples": per}))
-    per = 10000 if big else 500
+    per = 100000 if big else 500
     for i in range(2):
         out.append((f"volume{i}", "shard_volume", {"max_examples": per}))
     for n in range(1, 7):
         out.append((f"fourindex_n{n}", "shard_fourindex", {"n": n}))
     out.append(("strtobool_vocab", "shard_strtobool_vocab", {}))
-    out.append(("strtobool_other", "shard_strtobool_other", {"max_examples": 20000 if big else 1500}))
+    out.append(("strtobool_other", "shard_strtobool_other", {"max_examples": 200000 if big else 1500}))
     return out
 
 
